@@ -561,3 +561,18 @@ Example spsa_unrecognisable_example :
   /\ spsa_run repaired (1 # 2) 0 None spsa_init ([mk_in 2 5] ++ [mk_in 3 6])
      <> spsa_run repaired (1 # 2) 0 None spsa_init [mk_in 2 5] ++ spsa_run repaired (1 # 2) 0 None spsa_init [mk_in 3 6].
 Proof. vm_compute. repeat split. discriminate. Qed.
+
+(* Model-level witness of the KNOWN FINDING answer-spsa-run-boundary-increasing-count (SPSA with blocking=True: the first
+   checker call of a run carries a varying evaluation count): run 1 [(n=4, f=5)] was answered False, run 2 starts with
+   the larger count 7; the checker cannot tell it from a continuation, compares 6 with 5 (relative change 0.2 < 0.5) and
+   answers True although run 2 alone is answered False. *)
+Example spsa_known_finding_increasing_count :
+  spsa_run repaired (1 # 2) 0 None spsa_init ([mk_in 4 5] ++ [mk_in 7 6]) = [Ok false; Ok true]
+  /\ spsa_run repaired (1 # 2) 0 None spsa_init [mk_in 4 5] ++ spsa_run repaired (1 # 2) 0 None spsa_init [mk_in 7 6]
+     = [Ok false; Ok false]
+  /\ ~ (match [mk_in 7 6] with
+        | [] => True
+        | i :: _ => done (spsa_state_after repaired (1 # 2) 0 None spsa_init [mk_in 4 5]) = true
+                    \/ (si_n i <= nfe (spsa_state_after repaired (1 # 2) 0 None spsa_init [mk_in 4 5]))%Z
+        end).
+Proof. vm_compute. repeat split. intros [H|H]; [discriminate | apply H; reflexivity]. Qed.
